@@ -467,6 +467,7 @@ NUMERIC_OPTIONS = ("width", "height", "figwidth", "min-level", "max-level")
 NUMERIC_VALUES = ["100", "050", "100px", "50%", "10\u00b2", "\uff11\uff10\uff10", "\u0661\u0660", "\u2460", "\u00b2", "1e3", "-1", "0", "1", "2", "3", "6", "7", "1.5", "9" * 40, "", "1\u2082", "12\u00bd", "4\u2074px",
                   # a number followed by something else (the validation looks at the beginning only)
                   '1"><b>', '100px"><li>x', "50%' x='", "1<b>", "2&amp;", '3"', "7 8", "1;color:red"]
+MARKUP_NUMBERS = NUMERIC_VALUES[-8:] + ['left"><b>', 'c1"><i>x', "a.png' x='"]
 
 
 def directive_doc(r, style=None, values=None):
